@@ -170,6 +170,9 @@ def plan(tier, seed):
                      'weight': (hi - lo) * 3})
     jobs.append({'space': 'S4', 'tier': tier, 'weight': 500})
     for i in range(8):
+        if i < len(PAIR_SETS):
+            jobs.append({'space': 'S6', 'tier': tier, 'pair': i,
+                         'weight': 300})
         jobs.append({'space': 'S5', 'tier': tier, 'shard': i, 'of': 8,
                      'weight': 400})
     return jobs
@@ -227,8 +230,41 @@ def vector(enf, rules, default, names, as_object=False):
     return vec
 
 
+PAIR_SETS = [
+    ({'p': 'rule:q', 'q': 'role:x or rule:r', 'r': 'role:y'}, ['y'], []),
+    ({'p': 'rule:q and not rule:r', 'q': 'rule:r or role:x',
+      'r': 'role:y'}, ['x'], ['x', 'y']),
+    ({'p': 'rule:nowhere or rule:q', 'q': 'not rule:dflt',
+      'dflt': 'role:x'}, ['x'], []),
+]
+
+
+def run_pair(acc, job):
+    """Two threads enforce the same policy - the same rule: reference
+    objects - with different credentials (engine E3, mc/pairs.py)."""
+    from mc import pairs
+    rules, ra, rb = PAIR_SETS[job['pair']]
+    roles = {'A': ra, 'B': rb}
+    exp = {n: ref_decide(rules, 'dflt' if 'dflt' in rules else None, 'p',
+                         set(roles[n])) for n in 'AB'}
+
+    def make_bodies():
+        enf = world.bare_enforcer()
+        enf.default_rule = 'dflt' if 'dflt' in rules else None
+        world.set_rules(enf, rules)
+        return {n: (lambda n=n: bool(enf.enforce(
+            'p', {}, {'roles': list(roles[n])}))) for n in 'AB'}
+    pairs.explore(acc, 'S6', 'set%d' % job['pair'], make_bodies, exp,
+                  1 if job['tier'] == 'quick' else 2,
+                  lambda n: 'roles %r' % (roles[n],))
+    acc.sample('S6', rules)
+    return acc.result()
+
+
 def run(job, seed):
     acc = core.Acc()
+    if job['space'] == 'S6':
+        return run_pair(acc, job)
     enf = world.bare_enforcer()
     b = BOUNDS[job['tier']]
     if job['space'] == 'S1':
